@@ -74,7 +74,7 @@ func sameDir(a, b Dir) bool {
 	return true
 }
 
-var consSetups = []string{"fresh", "pending", "execute-1", "execute-all", "execute-to-first"}
+var consSetups = []string{"fresh", "fresh-memdir", "pending", "execute-1", "execute-all", "execute-to-first"}
 var consOps = []string{"Pending", "ExecuteN(0)", "ExecuteN(1)", "ExecuteTo(last)"}
 
 // consLib: "every directory-consuming operation validates first", at the library level: an Executor —
@@ -95,6 +95,35 @@ func consLib(c *rt.Ctx, cs ConsCase) (key, what string) {
 	}
 	w := world.New()
 	ctx := context.Background()
+	if cs.Setup == "fresh-memdir" {
+		// the same through an in-memory directory (what UnarchiveDir / mem:// hand to the executor)
+		md := toMem(cs.Ed)
+		mex, err := migrate.NewExecutor(w, md, w)
+		if err != nil {
+			return "", ""
+		}
+		var oerr error
+		p, val, st := rt.Try(func() {
+			switch cs.Op {
+			case "Pending":
+				_, oerr = mex.Pending(ctx)
+			case "ExecuteN(1)":
+				oerr = mex.ExecuteN(ctx, 1)
+			default:
+				oerr = mex.ExecuteN(ctx, 0)
+			}
+		})
+		if p {
+			return "consumer-lib|" + rt.PanicKey(st), fmt.Sprintf("%s on the edited in-memory directory panics: %v", cs.Op, val)
+		}
+		for _, e := range w.Log {
+			return "consumer-lib|ran-on-tampered-dir|" + cs.Setup, fmt.Sprintf("%s on an in-memory directory with a protected edit (%s) reached the database: %s (err=%v)", cs.Op, cs.Edit, e, oerr)
+		}
+		if !isChecksumErr(oerr) {
+			return "consumer-lib|no-checksum-error|" + cs.Setup, fmt.Sprintf("%s on an in-memory directory with a protected edit (%s) returns %v, want a checksum error", cs.Op, cs.Edit, oerr)
+		}
+		return "", ""
+	}
 	ex, err := migrate.NewExecutor(w, ld, w)
 	if err != nil {
 		return "", ""
